@@ -70,6 +70,8 @@ type Disk struct {
 	seq      int
 	// OnMutation runs after a mutating call took effect (before it returns to the caller).
 	OnMutation func(e Entry)
+	// OnCall runs at the start of every call (reads too) with the calling task's id.
+	OnCall func(op, task string)
 }
 
 var cur *Disk
@@ -137,6 +139,9 @@ func (d *Disk) point(kind string) {
 // begin registers a call. ok=false: the call must have no effect and return err.
 func (d *Disk) begin(op, path, path2 string, mut bool, size ...int) (idx int, ok bool, err error) {
 	d.point(op)
+	if oc := d.OnCall; oc != nil {
+		oc(op, simrt.TaskID())
+	}
 	d.mu.Lock()
 	defer d.mu.Unlock()
 	d.seq++
